@@ -23,6 +23,7 @@ pub const POINTS: &[&str] = &[
     "gc.before_delete",
     "gc.after_delete",
     "worker.tasks_drained",
+    "lock.after_open",
 ];
 
 /// role -1 = a database background thread, >= 0 = client thread index
